@@ -259,6 +259,8 @@ def visit(
 
                 if result is SKIP or result is False:
                     if not is_leaving:
+                        if stack is None:
+                            break  # skipping the root node
                         path_pop()
                         continue
 
@@ -268,6 +270,8 @@ def visit(
                         if isinstance(result, Node):
                             node = result
                         else:
+                            if stack is None:
+                                break  # removing or replacing the root node
                             path_pop()
                             continue
             else:
